@@ -322,6 +322,19 @@ public:
         return start;
     }
 
+    /**
+     * Writes a character of a comment or a processing instruction,
+     * where no character reference can stand for it.
+     */
+    size_type
+    writeLiteral(
+            const XalanDOMChar  chars[],
+            size_type           start,
+            size_type           length)
+    {
+        return write(chars, start, length);
+    }
+
     void
     writeSafe(
         const XalanDOMChar*     theChars,
